@@ -1,12 +1,12 @@
 SPECIFICATION Spec
 CONSTANTS
-  Instances <- QuickInstances
+  Instances <- UserInstances
   MaxInstants = 4
-  MaxEpochs = 2
+  MaxEpochs = 1
   MaxSolvers = 2
   RunLengths <- RunLens
-  UserPwms <- NoUser
-  UserStates <- NoUser
+  UserPwms <- UserPwmSet
+  UserStates <- UserStateSet
 INVARIANT C01_Coupled
 INVARIANT C02_Torques
 INVARIANT C03_Motion
@@ -15,7 +15,6 @@ INVARIANT C13_SignSafe
 INVARIANT C13_NoClamp
 INVARIANT C13_HeldMeansStill
 INVARIANT C14_Range
-INVARIANT C16_FirstHit
 INVARIANT C17_Rect
 INVARIANT C12_SplitAndRerun
 PROPERTY RefinesLockAbs
